@@ -17,7 +17,6 @@ from collections import Counter
 import numpy as np
 
 from lbfgsb.scalar_function import prepare_scalar_function
-from scipy.optimize._numdiff import approx_derivative
 
 from ..core import choice
 from ..world import InjectedError
@@ -52,7 +51,11 @@ COMPONENTS = {
     "real": ["lbfgsb.scalar_function (ScalarFunction, prepare_scalar_function)", "scipy approx_derivative"],
     "stub": ["user objective/gradient (pure closed-form functions, logged)", "caller (operation generator, aliasing faults)", "reference memo-cell model"],
 }
-ASSUMPTIONS = ["fresh evaluation = the same pure Python function called by the harness on a private copy of the point"]
+ASSUMPTIONS = [
+    "fresh evaluation = the same pure Python function called by the harness on a private copy of the point; in finite-difference modes the gradient a brand-new wrapper with the same options returns there",
+    "'the point it was last evaluated at' is read as the wrapper's memo: a request at another point in between (fun(a), grad(b), fun(a)) legitimately re-evaluates at a",
+    "a user call that raised may or may not be counted (completed <= counter <= started)",
+]
 OPS = ("fun", "grad", "fun_and_grad")
 MODES = ("callable", None, "2-point", "3-point")
 
@@ -70,6 +73,7 @@ class UserCode:
         self.fun_calls = []  # argument bytes of every objective call started
         self.completed = []  # argument bytes of every objective call that returned
         self.grad_calls = []
+        self.grad_completed = []
         self.raise_fun_at = None
         self.raise_grad_at = None
         self.scribble = False
@@ -97,6 +101,7 @@ class UserCode:
         if self.raise_grad_at is not None and len(self.grad_calls) == self.raise_grad_at:
             raise InjectedError("grad#%d" % len(self.grad_calls))
         g = self.g_pure(np.array(x, dtype=float, copy=True))
+        self.grad_completed.append(self.grad_calls[-1])
         if self.scribble:
             x[:] = 12345.678
         if self.reuse_buf:
@@ -157,6 +162,7 @@ def run_history(mode, n, pseed, bounds_kind, fd_opts, ops, stats):
     has_g = False
     scale = 1.0
     n_grad_comp = 0  # gradient computations started (model)
+    n_grad_done = 0  # ... and completed
     viol = []
     hit_cache = False
     last_grad = [None]  # the gradient array most recently handed to the caller
@@ -166,8 +172,17 @@ def run_history(mode, n, pseed, bounds_kind, fd_opts, ops, stats):
         xc = np.array(x, dtype=float, copy=True)
         if not fd:
             return user.g_pure(xc)
-        f0 = user.f_pure(xc)
-        return approx_derivative(lambda z: user.f_pure(np.array(z, dtype=float, copy=True)), xc, f0=f0, **fd_options)
+        # "fresh evaluation" in a finite-difference mode = what a brand-new wrapper (same options, pure
+        # user function, nothing memoised) answers at that point: independent of the differencing route
+        sf2 = prepare_scalar_function(
+            lambda z: user.f_pure(np.array(z, dtype=float, copy=True)),
+            np.array(xc, copy=True),
+            jac=mode,
+            bounds=(lb, ub),
+            epsilon=eps,
+            finite_diff_rel_step=rel,
+        )
+        return np.array(sf2.grad(np.array(xc, copy=True)), dtype=float, copy=True)
 
     for step, op in enumerate(ops):
         kind = op["op"]
@@ -180,7 +195,8 @@ def run_history(mode, n, pseed, bounds_kind, fd_opts, ops, stats):
             what = op["what"]
             stats["fault." + what] += 1
             if what == "mutate_passed_array" and live:
-                name = sorted(live)[0]
+                names = sorted(live)
+                name = names[(step + int(op.get("skip", 0))) % len(names)]
                 live[name][:] = live[name] * 0.5 + 0.123  # caller overwrites the array it passed
             elif what == "mutate_returned" and last_grad[0] is not None:
                 # the caller works in place on the gradient array it was handed (as the solver does)
@@ -255,6 +271,7 @@ def run_history(mode, n, pseed, bounds_kind, fd_opts, ops, stats):
         if need_g and not had_g:
             started = has_f if fd else (len(user.grad_calls) > ng0)
             n_grad_comp += 1 if started else 0
+            n_grad_done += 1 if (started and raised is None) else 0
             has_g = raised is None
         # ---- oracle
         if model_has_f and at_base > 0:
@@ -272,11 +289,13 @@ def run_history(mode, n, pseed, bounds_kind, fd_opts, ops, stats):
                 g_fresh = fresh_g(x_req)
                 if np.asarray(gv, dtype=float).tobytes() != (np.asarray(g_fresh) * scale).tobytes():
                     viol.append({"clause": "stale_or_wrong_gradient", "witness": dict(w, scale=scale, max_abs_diff=float(np.max(np.abs(np.asarray(gv) - g_fresh * scale))))})
-        if sf.nfev != len(user.fun_calls):
-            viol.append({"clause": "nfev_miscounts", "witness": dict(w, nfev=int(sf.nfev), calls=len(user.fun_calls))})
-        expected_ngev = len(user.grad_calls) if not fd else n_grad_comp
-        if sf.ngev != expected_ngev:
-            viol.append({"clause": "ngev_miscounts", "witness": dict(w, ngev=int(sf.ngev), computations=expected_ngev)})
+        # every completed call is counted, no call is counted twice; a call that raised may be counted or not
+        if not (len(user.completed) <= sf.nfev <= len(user.fun_calls)):
+            viol.append({"clause": "nfev_miscounts", "witness": dict(w, nfev=int(sf.nfev), calls_started=len(user.fun_calls), calls_completed=len(user.completed))})
+        hi_g = len(user.grad_calls) if not fd else n_grad_comp
+        lo_g = len(user.grad_completed) if not fd else n_grad_done
+        if not (lo_g <= sf.ngev <= hi_g):
+            viol.append({"clause": "ngev_miscounts", "witness": dict(w, ngev=int(sf.ngev), computations_started=hi_g, computations_completed=lo_g)})
         if viol:
             break
     return viol, hit_cache
